@@ -7,5 +7,6 @@ CONSTANTS
   CloseLatches = TRUE
   TimeoutReleases = TRUE
   HandlerControlPath = TRUE
+  TimeoutFaultLatches = TRUE
 INVARIANTS TypeOK LockOK
 CHECK_DEADLOCK FALSE
